@@ -251,6 +251,13 @@ func (s *Lexer) readNumber() (Token, error) {
 		}
 	}
 
+	// a number may not be directly followed by a dot or the start of a name
+	if s.end < len(s.Input) {
+		if c := s.Input[s.end]; c == '.' || c == '_' || (c >= 'a' && c <= 'z') || (c >= 'A' && c <= 'Z') {
+			return s.makeError("Invalid number, expected digit but got: %s.", s.describeNext())
+		}
+	}
+
 	if float {
 		return s.makeToken(Float)
 	}
